@@ -363,8 +363,14 @@ class BackendProvider(ABC):
                 raise ValueError("Over of an empty list is left to the interpreter")
             return a
 
+        def numeric(a):
+            if getattr(a, 'dtype', None) == object:
+                raise TypeError("Over of a nested list is left to the interpreter")
+            return a
+
         return {
             '_kg_nonempty': nonempty,
+            '_kg_numeric': numeric,
             '_kg_divide': lambda a, b: eval_dyad_divide(a, b, self),
             '_kg_power': lambda a, b: eval_dyad_power(a, b, self),
             '_kg_equal': lambda a, b: eval_dyad_equal(a, b, self),
